@@ -119,6 +119,11 @@ def build(rng):
             pass
     for ci in range(rng.randint(1, 3)):
         lam = rng_f + rng.choice([0.5, 1, 7, 0.875, 2.375, 0.125, 0.25])
+        if ci and rng.random() < 0.15:
+            # the history goes on with a rounded copy (a no-op on these coefficients: at most three binary places)
+            H = round(H, 6)
+            desc.append(["H = round(H, 6)"])
+            STEPS["rounded-copy-between-constraints"] = STEPS.get("rounded-copy-between-constraints", 0) + 1
         if ci and rng.random() < 0.25:
             H.refresh()
             desc.append(["refresh"])
